@@ -590,8 +590,18 @@ def c09_e(ctx: Ctx):
 @rule("C09-f")
 def c09_f(ctx: Ctx):
     """Per-job / per-entry loops are independent: nothing read in one iteration was computed in another."""
-    from .lints import per_item_loops
-    return per_item_loops(ctx, "C09-f", [('signac.project:Project.check', 'a job is judged by the result computed for the previous job: damaged jobs are missed or intact ones reported'), ('signac.project:Project.repair', 'a job is repaired with the state point looked up for the previous job')])
+    from .lints import per_item_loops, late_binding_in_loops
+    return late_binding_in_loops(ctx, "C09-f", ("signac.project",)) + per_item_loops(ctx, "C09-f", [('signac.project:Project.check', 'a job is judged by the result computed for the previous job: damaged jobs are missed or intact ones reported'), ('signac.project:Project.repair', 'a job is repaired with the state point looked up for the previous job')])
 
 
-RULES = [c09_a, c09_b, c09_c, c09_d, c09_e, c09_f]
+@rule("C09-g")
+def c09_g(ctx: Ctx):
+    """repair() can rely on the persistent cache: what _read_cache reads from the file overrides unvalidated entries already in memory (from C08-d)."""
+    from .c08 import c08_d
+    res = [r for r in c08_d(ctx) if "file-content-wins" in r.construct]
+    for r in res:
+        r.rule = "C09-g"
+    return res or [ctx.inc("C09-g", None, None, "precedence of the cache file in _read_cache not determined", construct="c09g|none")]
+
+
+RULES = [c09_a, c09_b, c09_c, c09_d, c09_e, c09_f, c09_g]
